@@ -1,10 +1,10 @@
 #!/bin/bash
 # run every claimed check at the given tier (default quick) and print one summary line each
-tier=${1:-quick}
+tier=${1:-quick}; shift || true   # further arguments are passed to every check, e.g. --wall-cap-s 600
 cd /verif
 for c in $(python3 -c "import json;print(' '.join(x['property_id'] for x in json.load(open('MANIFEST.json'))['checks']))"); do
   t0=$(date +%s)
-  out=$(./check $c --tier $tier 2>&1); rc=$?
+  out=$(./check $c --tier $tier "$@" 2>&1); rc=$?
   echo "$c rc=$rc $(( $(date +%s)-t0 ))s $(echo "$out" | grep '^done' | cut -c1-200)"
   echo "$out" | grep "^VIOLATION\|^violation\|HARNESS" | cut -c1-300
 done
